@@ -912,6 +912,10 @@ func (g *gen) seg(mode int) string {
 	case mode >= 1 && g.r.Intn(4) == 0:
 		return hx.Pick(g.r, specialSegs...)
 	}
+	if g.r.Intn(10) == 0 {
+		// dot segments: a URL is an opaque name for the server, nothing on the way may "normalise" them
+		return hx.Pick(g.r, ".", "..", "...", ".x", "x.", "..x")
+	}
 	return hx.Pick(g.r, plainSegs...)
 }
 
@@ -1710,7 +1714,8 @@ func (h *harness) endToEnd(g *gen, corpusOnly bool, budget int) {
 	}
 	// corpus: the known shapes and the upstream-style URLs first
 	for _, t := range []string{"/p?x=a@b%20c", "/te!st", "/a%2Fb", "/p?", "/teststream?param=value", "/teststream",
-		"/a/trackID=5/b?x=/trackID=9", "/test/stream?param1=val&param2=val", "/user=tmp&password=BagRep1&channel=1&stream=0.sdp"} {
+		"/a/trackID=5/b?x=/trackID=9", "/test/stream?param1=val&param2=val", "/user=tmp&password=BagRep1&channel=1&stream=0.sdp",
+		"/live/./cam1", "/archive/2024/../cam1?res=hd", "/a/../../b", "/./s", "/live/.../cam"} {
 		e.e2eCase(g, hosts[0]+t)
 	}
 	e.e2eCase(g, "myuser:mypass@"+hosts[0]+"/secret/stream?token=abc")
